@@ -16,6 +16,7 @@
 #include "img_fileio.h"
 
 #include <errno.h>       // for errno
+#include <algorithm>     // for min
 #include <iostream>      // for cerr
 #include "dfs.h"         // for safe_unsigned_multiply
 #include "exceptions.h"  // for FileIOError
@@ -83,9 +84,18 @@ namespace DFS
 	  else
 	    return buf;
 	}
-      buf.resize(len);
-      f_.read(reinterpret_cast<char*>(buf.data()), len);
-      buf.resize(f_.gcount());
+      // Grow the buffer as the data arrives instead of allocating len
+      // bytes up front: len may come from a field of a corrupt image
+      // file and be far larger than the file itself.
+      const unsigned long chunk_size = 65536;
+      while (buf.size() < len && f_.good())
+	{
+	  const unsigned long old_size = buf.size();
+	  const unsigned long want = std::min(chunk_size, len - old_size);
+	  buf.resize(old_size + want);
+	  f_.read(reinterpret_cast<char*>(buf.data() + old_size), want);
+	  buf.resize(old_size + f_.gcount());
+	}
       if (!f_.good())
 	{
 	  const int saved_errno = errno;
